@@ -256,7 +256,7 @@ theorem resolve_ytop (ast : Block) (hs : SrcTop ast) (r : RBlock) (h : resolvePr
     compiling and running it agrees with the definitional semantics (or stops at the machine's stack limit) -/
 theorem fn_source_program_syntactic (ast : Block) (r : RBlock) (bc : Bytecode) (hc : compileProgram ast = .ok (r, bc))
     (hin : SrcTop ast) (F : Nat) :
-    (∃ n, ∀ k, ∃ s', runSteps bc.code (n + k) (VM.start {} bc) = .error .index s') ∨
+    HitsLimit bc ∨
     match evalB F r {} with
     | .val () st' => ∃ Γ' D mv n, VR (lookupD D) Γ' st'.last mv ∧ st'.out = [] ∧
         ∀ k, ∃ s', runSteps bc.code (n + k) (VM.start {} bc) = .value mv s'
@@ -464,7 +464,7 @@ theorem srcTop_sound : (b : Block) → srcTop b = true → SrcTop b
 /-- END TO END FROM SOURCE TREES, stage 4, with the SOURCE-level check -/
 theorem fn_source_program_checked (ast : Block) (r : RBlock) (bc : Bytecode) (hc : compileProgram ast = .ok (r, bc))
     (hin : srcTop ast = true) (F : Nat) :
-    (∃ n, ∀ k, ∃ s', runSteps bc.code (n + k) (VM.start {} bc) = .error .index s') ∨
+    HitsLimit bc ∨
     match evalB F r {} with
     | .val () st' => ∃ Γ' D mv n, VR (lookupD D) Γ' st'.last mv ∧ st'.out = [] ∧
         ∀ k, ∃ s', runSteps bc.code (n + k) (VM.start {} bc) = .value mv s'
